@@ -67,5 +67,8 @@ def kernel_ob(kop, dbl, nn, pmode=0, p=1, pr=1, unwind=80, timeout=None):
     else:
         d["PR"] = pr
         name += "/p=%d+2Nq" % pr
+    if kop == 1 and dbl:
+        d["PROBE"] = None
+        name += "/probe-data"
     return Ob(name, H, "h_kernel", d, LIBS, unwind=unwind, timeout=timeout, unwindset=p_unwindset(nn) if pmode != 0 else None, family="kernel %s %s" % (kn, "f64" if dbl else "i64"),
               desc="raw kernel, out-of-place and in-place on the same symbolic data, both equal the signed permutation j->(j+p) / j*p mod 2N")
